@@ -67,7 +67,11 @@ LifeChecks(post, P) ==
   ELSE "ok"
 PostChecks(post, P) == IF Proj = "acct" THEN AcctChecks(post, P) ELSE LifeChecks(post, P)
 
-AllDyadic(S) == Dyadic(S.wallet) /\ \A s \in Syms : Dyadic(S.entry[s])
+\* the code's float arithmetic is exact only on binary fractions: dyadic wallet and entries AND a power-of-two
+\* leverage (16 / 5 is already rounded)
+\* (and quantities that are binary fractions themselves: histories with 0.1 / 0.2 / 0.3 are logged x 10)
+DecimalQty == "QD" \in DOMAIN Traces[tid].hdr /\ Traces[tid].hdr.QD # 1
+AllDyadic(S) == ~DecimalQty /\ IsPow2(Lev) /\ Dyadic(S.wallet) /\ \A s \in Syms : Dyadic(S.entry[s])
 OrderOf(e) == [sym |-> e.sym, side |-> e.side, typ |-> e.typ, q |-> e.q, p |-> e.p, ro |-> e.ro, st |-> "A"]
 IsDup(S, e) ==
   CASE e.k \in {"exec", "cancel"} -> S.ord[e.id].st # "A"
